@@ -495,15 +495,22 @@ def run(ctx):
             ctx.violation("R6.2", key + ":population", "allocator does not draw from the whole population (missing %s%s)" % (
                 miss, (", found narrowing " + str(bad)) if bad else ""), file=f.file, line=f.line)
         elif not idi:
-            ctx.violation("R6.2", key + ":idiom", "no recognised fresh-value idiom in the allocator", file=f.file, line=f.line)
+            # how the fresh value is computed is not understood: an analysis gap, not a counter-fact
+            ctx.error(key, "no recognised fresh-value idiom in the allocator (max+1, first gap, candidate scan, counter ...)")
         elif exh:
             ctx.violation("R6.2", key + ":exhaustion", exh, file=f.file, line=f.line)
         elif any("gap" in i or "enumerate" in i for i in idi) and gap:
             ctx.violation("R6.2", key + ":order", gap, file=f.file, line=f.line)
         elif stale:
             r = stale[0]
-            ctx.violation("R6.2", key + ":return", "a return path yields `%s`, which is not fresh by construction" % ast.unparse(r.value),
-                          file=f.file, line=r.lineno)
+            opaque = [c for c in ast.walk(r.value) if isinstance(c, ast.Call) and (dotted(c.func) or "?").split(".")[-1] not in (
+                "int", "len", "max", "min", "str", "format", "PackURI", "sorted", "list", "tuple", "set")]
+            if opaque:
+                ctx.error(key, "a return path yields `%s`, computed by `%s`, which this analysis does not interpret" % (
+                    ast.unparse(r.value)[:80], ast.unparse(opaque[0].func)))
+            else:
+                ctx.violation("R6.2", key + ":return", "a return path yields `%s`, which is not fresh by construction" % ast.unparse(r.value),
+                              file=f.file, line=r.lineno)
         else:
             ctx.ok("R6.2", key, sample={"allocator": f.fq, "population": must, "idiom": sorted(set(idi)), "through": [g.qualname for g in reach[1:]]})
     ctx.count("allocators", len(ALLOCATORS))
